@@ -1108,6 +1108,162 @@ pub unsafe extern "C" fn sched_getcpu() -> c_int {
     cpu as c_int
 }
 
+/// Directory listings (`opendir`/`readdir64`/`closedir`, behind `std::fs::read_dir`): for
+/// simulated caller threads a directory exists or not with the environment epoch like any other
+/// path, and what it contains is a function of (directory, epoch) too: a few entries out of a
+/// fixed set of names (numbered output files, a lock file, a hidden file). A result that depends on
+/// what happens to be in a directory (the first free `out.N.txt`, a glob expanded at compile time)
+/// then differs between equal inputs.
+#[repr(C)]
+pub struct SimDirent {
+    d_ino: u64,
+    d_off: i64,
+    d_reclen: u16,
+    d_type: u8,
+    d_name: [u8; 256],
+}
+
+pub struct SimDir {
+    names: Vec<String>,
+    next: usize,
+    entry: SimDirent,
+}
+
+static SIM_DIRS: Mutex<Vec<usize>> = Mutex::new(Vec::new());
+
+unsafe fn real_fn(cache: &std::sync::atomic::AtomicUsize, name: &[u8]) -> usize {
+    extern "C" {
+        fn dlsym(handle: *mut c_void, symbol: *const std::os::raw::c_char) -> *mut c_void;
+    }
+    let mut f = cache.load(std::sync::atomic::Ordering::Relaxed);
+    if f == 0 {
+        f = dlsym(-1isize as *mut c_void, name.as_ptr() as *const std::os::raw::c_char) as usize;
+        cache.store(f, std::sync::atomic::Ordering::Relaxed);
+    }
+    f
+}
+
+#[no_mangle]
+pub unsafe extern "C" fn opendir(path: *const std::os::raw::c_char) -> *mut c_void {
+    if let Some((present, canon)) = sim_path_query(path) {
+        if !present {
+            *__errno_location() = ENOENT;
+            return std::ptr::null_mut();
+        }
+        let env = active();
+        let (seed, epoch) = {
+            let st = (*env).lock().unwrap_or_else(|e| e.into_inner());
+            (st.env_seed, st.env_epoch)
+        };
+        const POOL: [&str; 12] = ["out.txt", "out.0.txt", "out.1.txt", "out.2.txt", "list.0", "list.1", ".lock", ".hidden", "core", "a", "sub", "README"];
+        let mut names = vec![".".to_string(), "..".to_string()];
+        let h = crate::rng::mix(&[crate::rng::hash_str(&canon), seed, epoch, 0xD1]);
+        for (i, n) in POOL.iter().enumerate() {
+            if (h >> i) & 1 == 1 {
+                names.push(n.to_string());
+            }
+        }
+        // the order of a listing is not sorted either
+        if (h >> 20) & 1 == 1 {
+            names.reverse();
+        }
+        let d = Box::new(SimDir { names, next: 0, entry: SimDirent { d_ino: 0, d_off: 0, d_reclen: 280, d_type: 0, d_name: [0; 256] } });
+        let p = Box::into_raw(d) as usize;
+        SIM_DIRS.lock().unwrap_or_else(|e| e.into_inner()).push(p);
+        return p as *mut c_void;
+    }
+    static REAL: std::sync::atomic::AtomicUsize = std::sync::atomic::AtomicUsize::new(0);
+    let f = real_fn(&REAL, b"opendir\0");
+    if f == 0 {
+        *__errno_location() = ENOENT;
+        return std::ptr::null_mut();
+    }
+    let real: unsafe extern "C" fn(*const std::os::raw::c_char) -> *mut c_void = std::mem::transmute(f);
+    real(path)
+}
+
+fn is_sim_dir(p: *mut c_void) -> bool {
+    SIM_DIRS.lock().unwrap_or_else(|e| e.into_inner()).contains(&(p as usize))
+}
+
+#[no_mangle]
+pub unsafe extern "C" fn readdir64(dir: *mut c_void) -> *mut SimDirent {
+    if is_sim_dir(dir) {
+        let d = &mut *(dir as *mut SimDir);
+        if d.next >= d.names.len() {
+            return std::ptr::null_mut();
+        }
+        let name = d.names[d.next].clone();
+        d.next += 1;
+        d.entry.d_ino = 1000 + crate::rng::hash_str(&name) % 100_000;
+        d.entry.d_off = d.next as i64;
+        // DT_DIR for . .. and "sub", DT_REG otherwise
+        d.entry.d_type = if name == "." || name == ".." || name == "sub" { 4 } else { 8 };
+        d.entry.d_name = [0; 256];
+        for (i, b) in name.bytes().take(255).enumerate() {
+            d.entry.d_name[i] = b;
+        }
+        return &mut d.entry as *mut SimDirent;
+    }
+    static REAL: std::sync::atomic::AtomicUsize = std::sync::atomic::AtomicUsize::new(0);
+    let f = real_fn(&REAL, b"readdir64\0");
+    if f == 0 {
+        return std::ptr::null_mut();
+    }
+    let real: unsafe extern "C" fn(*mut c_void) -> *mut SimDirent = std::mem::transmute(f);
+    real(dir)
+}
+
+#[no_mangle]
+pub unsafe extern "C" fn readdir(dir: *mut c_void) -> *mut SimDirent {
+    // on x86_64 linux `struct dirent` and `struct dirent64` have the same layout
+    if is_sim_dir(dir) {
+        return readdir64(dir);
+    }
+    static REAL: std::sync::atomic::AtomicUsize = std::sync::atomic::AtomicUsize::new(0);
+    let f = real_fn(&REAL, b"readdir\0");
+    if f == 0 {
+        return std::ptr::null_mut();
+    }
+    let real: unsafe extern "C" fn(*mut c_void) -> *mut SimDirent = std::mem::transmute(f);
+    real(dir)
+}
+
+#[no_mangle]
+pub unsafe extern "C" fn closedir(dir: *mut c_void) -> c_int {
+    {
+        let mut dirs = SIM_DIRS.lock().unwrap_or_else(|e| e.into_inner());
+        if let Some(i) = dirs.iter().position(|p| *p == dir as usize) {
+            dirs.swap_remove(i);
+            drop(Box::from_raw(dir as *mut SimDir));
+            return 0;
+        }
+    }
+    static REAL: std::sync::atomic::AtomicUsize = std::sync::atomic::AtomicUsize::new(0);
+    let f = real_fn(&REAL, b"closedir\0");
+    if f == 0 {
+        return -1;
+    }
+    let real: unsafe extern "C" fn(*mut c_void) -> c_int = std::mem::transmute(f);
+    real(dir)
+}
+
+#[no_mangle]
+pub unsafe extern "C" fn dirfd(dir: *mut c_void) -> c_int {
+    if is_sim_dir(dir) {
+        // no descriptor behind a simulated listing
+        *__errno_location() = 95; // ENOTSUP
+        return -1;
+    }
+    static REAL: std::sync::atomic::AtomicUsize = std::sync::atomic::AtomicUsize::new(0);
+    let f = real_fn(&REAL, b"dirfd\0");
+    if f == 0 {
+        return -1;
+    }
+    let real: unsafe extern "C" fn(*mut c_void) -> c_int = std::mem::transmute(f);
+    real(dir)
+}
+
 /// Self-test used by `fpsim selfcheck`: both seams must be live in this binary.
 pub fn seams_are_live() -> Result<(), String> {
     let env = new_env(CLOCK_FLOOR + 12345);
